@@ -411,7 +411,12 @@ class _SearchIndexer(dict):
             # This way, both `signac find x 4.0` and `signac find x 4` would
             # return jobs where `sp.x` is stored as either 4.0 or 4.
             if isinstance(value, Number) and float(value).is_integer():
-                result_float = index.get(float(value), set())
+                # Integers beyond 2**53 are not exactly representable as floats:
+                # only look up the float if it really is the same number.
+                if float(value) == value:
+                    result_float = index.get(float(value), set())
+                else:
+                    result_float = set()
                 result_int = index.get(int(value), set())
                 result = result_int.union(result_float)
                 if value in (0, 1):
